@@ -1,0 +1,79 @@
+//go:build verif
+
+// Contracts for package cose, checked by /verif/govc (see /verif/DESIGN.md).
+// Comment-only file: it adds nothing to any build.
+package cose
+
+// hash function (crypto.Hash) of a COSE signature algorithm id
+//@ spec macro sighash(alg) = ite(alg == -7 || alg == -257 || alg == -37, 5, ite(alg == -35 || alg == -258 || alg == -38, 6, 7))
+
+// ---- COSE_Sign1 (C13) -----------------------------------------------------------------
+
+// SigOk(s1, key) is DEFINED as "Sign1.Verify(s1, key) returned (true, nil)" for
+// the object's own payload and no external data. What that means is pinned down
+// by the assertions at the calls of the primitives: the digest handed to them is
+// the hash, under the header's algorithm, of the encoded Sig_structure
+// ["Signature1", protected, external_aad, payload] of exactly these operands,
+// r||s is the two halves of the given signature, and the key is the given key.
+//@ func cose.Sign1.Verify
+//@   props C13 C10(sweep) C01(functional) C04(functional)
+//@   sweep bounds,panic,make,nilmem
+//@   pure
+//@   ensures! result0 && err == nil && payload == nil ==> SigOk(u(s1), u(key))
+//@   ensures @errfalse err != nil ==> !result0
+//@   ensures @payload err == nil && payload == nil ==> s1.Payload != nil
+//@   callassert Verify#1: @key u(arg0) == u(key)
+//@   callassert Verify#1: @digest bytes(arg1) == digest(happ(hinit(u(sighash(alg))), Enc(tuple("Signature1", protected, tuple(additionalData), *s1.Payload))))
+//@   callassert Verify#1: @r BigVal(u(arg2)) == BigOf(bytes(s1.Signature[0:n]))
+//@   callassert Verify#1: @s BigVal(u(arg3)) == BigOf(bytes(s1.Signature[n:]))
+//@   callassert Verify#1: @siglen len(s1.Signature) == 2*n
+//@   callassert verifyRSA#1: @key u(arg0) == u(key)
+//@   callassert verifyRSA#1: @hash arg1 == sighash(alg)
+//@   callassert verifyRSA#1: @digest bytes(arg2) == digest(happ(hinit(u(sighash(alg))), Enc(tuple("Signature1", protected, tuple(additionalData), *s1.Payload))))
+//@   callassert verifyRSA#1: @sig bytes(arg3) == bytes(s1.Signature) && arg4 == alg
+
+//@ func cose.verifyRSA
+//@   props C13 C10(sweep)
+//@   sweep bounds,panic,make,nilmem
+//@   pure
+//@   ensures @errfalse err != nil ==> !result0
+//@   callassert VerifyPKCS1v15#1: @args u(arg0) == u(pub) && arg1 == hash && bytes(arg2) == bytes(digest) && bytes(arg3) == bytes(sig)
+//@   callassert VerifyPKCS1v15#1: @alg alg == -257 || alg == -258 || alg == -259
+//@   callassert VerifyPSS#1: @args u(arg0) == u(pub) && arg1 == hash && bytes(arg2) == bytes(digest) && bytes(arg3) == bytes(sig)
+//@   callassert VerifyPSS#1: @alg alg == -37 || alg == -38 || alg == -39
+
+//@ func cose.Sign1.Sign
+//@   props C13
+//@   sweep bounds,panic,make,nilmem
+//@   callassert Sign#1: @digest bytes(arg2) == digest(happ(hinit(u(sighash(algID))), Enc(tuple("Signature1", body, tuple(additionalData), *sigPayload))))
+//@   callassert Sign#1: @opts u(arg3) == u(opts)
+
+// RFC 8152 8.1: r||s, each left-padded to the byte length of the group order
+//@ func cose.RFC8152Signer.Sign
+//@   props C13
+//@   sweep bounds,panic,make,nilmem
+//@   makelimit 1048576
+//@   ensures @len ? err == nil ==> len(result0) == 2*n
+//@   callassert FillBytes#1: @r u(buf) == u(sigBytes[0:n])
+//@   callassert FillBytes#2: @s u(buf) == u(sigBytes[n:])
+
+// The registry of signature algorithms: keys extracted from init on every run;
+// the hash function per key (sighash) is the table in sig_alg.go init (ASSUMED).
+//@ registry cose.sigAlgorithms via cose.RegisterSignatureAlgorithm keys -7,-35,-36,-257,-258,-259,-37,-38,-39
+//@ spec macro sigregistered(alg) = alg == -7 || alg == -35 || alg == -36 || alg == -257 || alg == -258 || alg == -259 || alg == -37 || alg == -38 || alg == -39
+//@ func cose.SignatureAlgorithm.HashFunc
+//@   nopaths
+//@   pure
+//@   requires @registered sigregistered(alg)
+//@   ensures! result == sighash(alg)
+
+// ---- COSE_Mac0 (C13, C05) -----------------------------------------------------------------
+// MacOf(alg, key, protected, payload) is DEFINED as the value Digest stores.
+//@ spec func MacOf(U, U, U, U) U
+//@ func cose.Mac0.Digest
+//@   props C13 C05(functional)
+//@   sweep bounds,panic,make,nilmem
+//@   modifies m0.Value
+//@   ensures @payload err == nil && payload == nil ==> m0.Payload != nil
+//@   ensures! err == nil && payload == nil ==> bytes(m0.Value) == MacOf(u(alg), bytes(key), u(m0.Protected), u(*m0.Payload))
+//@   callassert Encode#1: @structure ? u(unwrap(v)) == tuple("MAC0", protected, tuple(aad), *macPayload)
